@@ -18,7 +18,7 @@ func init() {
 		Doc: "scanner bounds: the position only grows by +1 from a value known < len (so pos <= len always); every byte read usage[pos] is behind a guard that puts the same content of pos strictly below len; every usage[a:b] has a an earlier value of pos and b a value of pos", Run: lex1})
 	register(&Rule{ID: "LEX-2", Props: []string{"C03"}, Floor: 4,
 		Doc: "scanner progress: every cycle of the scanner's CFG contains an increment of the position", Run: lex2})
-	register(&Rule{ID: "LEX-3", Props: []string{"C08"}, Floor: 1,
+	register(&Rule{ID: "LEX-3", Props: []string{"C08", "C18"}, Floor: 1,
 		Doc: "consume => emit: no iteration of the main loop advances the position without emitting a token, except in the blank cases", Run: lex3})
 	register(&Rule{ID: "LEX-4", Props: []string{"C08"}, Floor: 6,
 		Doc: "faithful tokens: the position given to an emit is the position at the start of the iteration; the text is usage[start:pos] (or a suffix of it) or a constant; one-byte tokens carry the character that selected the case", Run: lex4})
